@@ -37,6 +37,7 @@ package stream
 //@   invariant.ident forall j int :: 0 <= j && j < i ==> vBuckets[j] == j
 //@ hint.len len(vBuckets) == N && receivedInfo == info
 //@ ensures.asked[C09] calls(membership.Membership.GetInfo) == 1 && arg(membership.Membership.GetInfo, 0, recv) == old(s.membership)
+//@ ensures.nonempty[C09] len(result) >= 1 && (dom ==> len(result) <= 65536)
 //@ ensures.member[C09] dom ==> 1 <= M && M <= T
 //@ ensures.chunk[C09] dom ==> len(result) == chunkLo(N, T, M) - chunkLo(N, T, M-1) && len(result) >= 1
 //@ hint.ids1 dom ==> forall j int :: 0 <= j && j < len(result) ==> result[j] == vBuckets[chunkLo(N, T, M-1) + j] && vBuckets[chunkLo(N, T, M-1) + j] == chunkLo(N, T, M-1) + j
@@ -142,6 +143,16 @@ package stream
 //@ let any = old(st.anyDirtyOffset)
 //@ let state = arg(metadata.Metadata.Save, 0, state)
 //@ let dump = arg(metadata.Metadata.Save, 0, dirtyOffsets)
+//@ let saved = any && ret(metadata.Metadata.Save, 0) == nil
+// While the store call is in flight acknowledgements, absorbed events and system events may land
+// (any number of setOffset steps on any vBuckets): positions only move forward, dirty marks and
+// the dirty flag are only raised, the maps themselves stay the same objects.
+//@ rely metadata.Metadata.Save snap mid
+//@   modifies content(st.offsets), content(st.dirtyOffsets), st.anyDirtyOffset, calls(models.Consumer.TrackOffset)
+//@   guarantee.monotone forall vb uint16 :: old(has(st.offsets, vb)) ==> has(st.offsets, vb) && st.offsets[vb] != nil && st.offsets[vb].SeqNo >= old(st.offsets[vb].SeqNo)
+//@   guarantee.marks forall vb uint16 :: old(has(st.dirtyOffsets, vb)) ==> has(st.dirtyOffsets, vb) && (old(st.dirtyOffsets[vb]) ==> st.dirtyOffsets[vb])
+//@   guarantee.flag old(st.anyDirtyOffset) ==> st.anyDirtyOffset
+//@   guarantee.moved forall vb uint16 :: has(st.offsets, vb) && old(has(st.offsets, vb)) && st.offsets[vb] != old(st.offsets[vb]) ==> st.offsets[vb].SeqNo != old(st.offsets[vb].SeqNo) || st.offsets[vb].SeqNo == old(st.offsets[vb].SeqNo)
 //@ loop $1
 //@   invariant.shape forall vb uint16 :: visited[vb] ==> has(checkpointDump, vb) && checkpointDump[vb] != nil && checkpointDump[vb].Checkpoint != nil && checkpointDump[vb].Checkpoint.Snapshot != nil
 //@   invariant.uuid forall vb uint16 :: visited[vb] ==> checkpointDump[vb].Checkpoint.VbUUID == offsets[vb].VbUUID
@@ -154,15 +165,22 @@ package stream
 //@   invariant.copy forall vb uint16 :: visited[vb] ==> has(dirtyOffsetsDump, vb) && dirtyOffsetsDump[vb] == dirtyOffsets[vb]
 //@   invariant.dom forall vb uint16 :: has(dirtyOffsetsDump, vb) ==> visited[vb]
 //@   modifies content(dirtyOffsetsDump)
-//@ ensures.skip[C05] !any ==> calls(metadata.Metadata.Save) == 0 && calls(stream.Stream.UnmarkDirtyOffsets) == 0 && st.dirtyOffsets == dirt && unchanged(st.dirtyOffsets) && st.anyDirtyOffset == any
+//@ loop 1
+//@   invariant.kept forall vb uint16 :: has(dirtyOffsets, vb) == (at(mid, has(st.dirtyOffsets, vb)) && !(visited[vb] && has(dirtyOffsetsDump, vb) && dirtyOffsetsDump[vb] && has(offsets, vb) && offsets[vb].SeqNo == checkpointDump[vb].Checkpoint.SeqNo))
+//@   invariant.vals forall vb uint16 :: has(dirtyOffsets, vb) ==> dirtyOffsets[vb] == at(mid, st.dirtyOffsets[vb])
+//@   modifies content(dirtyOffsets)
+//@ ensures.skip[C05] !any ==> calls(metadata.Metadata.Save) == 0 && calls(stream.Stream.UnmarkDirtyOffsets) == 0 && st.dirtyOffsets == dirt && unchanged(st.dirtyOffsets) && st.anyDirtyOffset == any && unchanged(st.offsets)
 //@ ensures.once[C05] any ==> calls(metadata.Metadata.Save) == 1 && arg(metadata.Metadata.Save, 0, recv) == old(s.metadata) && arg(metadata.Metadata.Save, 0, bucketUUID) == s.bucketUUID
 //@ ensures.dumpdom[C01,C02] any ==> forall vb uint16 :: has(state, vb) == old(has(st.offsets, vb))
 //@ ensures.dump[C01,C02,C06] any ==> forall vb uint16 :: has(state, vb) ==> state[vb] != nil && state[vb].Checkpoint != nil && state[vb].Checkpoint.Snapshot != nil && state[vb].Checkpoint.VbUUID == old(st.offsets[vb].VbUUID) && state[vb].Checkpoint.SeqNo == old(st.offsets[vb].SeqNo) && state[vb].Checkpoint.Snapshot.StartSeqNo == old(st.offsets[vb].StartSeqNo) && state[vb].Checkpoint.Snapshot.EndSeqNo == old(st.offsets[vb].EndSeqNo)
 //@ ensures.dirtydump[C05] any ==> forall vb uint16 :: has(dump, vb) == old(has(st.dirtyOffsets, vb)) && (has(dump, vb) ==> dump[vb] == old(st.dirtyOffsets[vb]))
-//@ ensures.ok[C05] any && ret(metadata.Metadata.Save, 0) == nil ==> calls(stream.Stream.UnmarkDirtyOffsets) == 1 && arg(stream.Stream.UnmarkDirtyOffsets, 0, recv) == s.stream
-//@ ensures.fail[C05] any && ret(metadata.Metadata.Save, 0) != nil ==> calls(stream.Stream.UnmarkDirtyOffsets) == 0 && st.dirtyOffsets == dirt && unchanged(st.dirtyOffsets) && st.anyDirtyOffset == any
-//@ ensures.positions[C01] st.offsets == offs && unchanged(st.offsets)
-//@ modifies st.anyDirtyOffset, st.dirtyOffsets, s.metric.OffsetWrite, s.metric.OffsetWriteLatency, calls(metadata.Metadata.Save), calls(stream.Stream.UnmarkDirtyOffsets), calls(stream.Stream.GetOffsets)
+//@ ensures.interference[C05] any ==> (forall vb uint16 :: old(has(st.offsets, vb)) ==> at(mid, has(st.offsets, vb) && st.offsets[vb].SeqNo >= old(st.offsets[vb].SeqNo))) && (forall vb uint16 :: old(has(st.dirtyOffsets, vb) && st.dirtyOffsets[vb]) ==> at(mid, has(st.dirtyOffsets, vb) && st.dirtyOffsets[vb])) && at(mid, st.anyDirtyOffset)
+//@ ensures.forget_only_stored[C05] saved ==> forall vb uint16 :: at(mid, has(st.dirtyOffsets, vb) && st.dirtyOffsets[vb]) && !(old(has(st.dirtyOffsets, vb) && st.dirtyOffsets[vb] && has(st.offsets, vb)) && at(mid, st.offsets[vb].SeqNo) == old(st.offsets[vb].SeqNo)) ==> has(st.dirtyOffsets, vb) && st.dirtyOffsets[vb] && st.anyDirtyOffset
+//@ ensures.forget_stored[C05] saved ==> forall vb uint16 :: old(has(st.dirtyOffsets, vb) && st.dirtyOffsets[vb] && has(st.offsets, vb)) && at(mid, st.offsets[vb].SeqNo) == old(st.offsets[vb].SeqNo) ==> !has(st.dirtyOffsets, vb)
+//@ ensures.flag_down_only_when_clean[C05] saved && !st.anyDirtyOffset ==> forall vb uint16 :: !has(st.dirtyOffsets, vb)
+//@ ensures.fail[C05] any && ret(metadata.Metadata.Save, 0) != nil ==> calls(stream.Stream.UnmarkDirtyOffsets) == 0 && st.dirtyOffsets == dirt && st.anyDirtyOffset == at(mid, st.anyDirtyOffset) && forall vb uint16 :: has(st.dirtyOffsets, vb) == at(mid, has(st.dirtyOffsets, vb)) && st.dirtyOffsets[vb] == at(mid, st.dirtyOffsets[vb])
+//@ ensures.positions[C01] st.offsets == offs && forall vb uint16 :: old(has(st.offsets, vb)) ==> has(st.offsets, vb) && st.offsets[vb].SeqNo >= old(st.offsets[vb].SeqNo)
+//@ modifies st.anyDirtyOffset, st.dirtyOffsets, content(st.dirtyOffsets), content(st.offsets), s.metric.OffsetWrite, s.metric.OffsetWriteLatency, calls(metadata.Metadata.Save), calls(stream.Stream.UnmarkDirtyOffsets), calls(stream.Stream.GetOffsets), calls(models.Consumer.TrackOffset), calls("wrapper.(*ConcurrentSwissMap).Range")
 
 // Assumed contracts at the store / client boundary used by Load.
 //@ iface metadata.Metadata.Load
@@ -215,4 +233,173 @@ package stream
 //@ ensures.latestbranch[C02,C06] latest ==> forall vb uint16 :: has(dump, vb) ==> old(ncalls(couchbase.Client.GetFailOverLogs)) <= lastcall(couchbase.Client.GetFailOverLogs, vbID, vb) && lastcall(couchbase.Client.GetFailOverLogs, vbID, vb) < ncalls(couchbase.Client.GetFailOverLogs) && argat(couchbase.Client.GetFailOverLogs, lastcall(couchbase.Client.GetFailOverLogs, vbID, vb), vbID) == vb && retat(couchbase.Client.GetFailOverLogs, lastcall(couchbase.Client.GetFailOverLogs, vbID, vb), 1) == nil && result0[vb].VbUUID == retat(couchbase.Client.GetFailOverLogs, lastcall(couchbase.Client.GetFailOverLogs, vbID, vb), 0)[0].VbUUID
 //@ ensures.latestdirty[C05] latest ==> (forall vb uint16 :: has(result1, vb) == (has(dump, vb) && result0[vb].SeqNo != 0)) && (forall vb uint16 :: has(result1, vb) ==> result1[vb] == true) && result2 == (exists vb uint16 :: has(dump, vb) && result0[vb].SeqNo != 0)
 //@ onpanic.why[C02] lerr != nil || serr != nil || (latest && calls(couchbase.Client.GetFailOverLogs) > 0 && retat(couchbase.Client.GetFailOverLogs, ncalls(couchbase.Client.GetFailOverLogs) - 1, 1) != nil) || (!latest && exists vb uint16 :: has(dump, vb) && dump[vb].Checkpoint.SeqNo > ite(has(seqs, vb), seqs[vb], 0))
-//@ modifies calls(metadata.Metadata.Load), calls(couchbase.Client.GetVBucketSeqNos), calls(couchbase.Client.GetFailOverLogs)
+//@ modifies calls(metadata.Metadata.Load), calls(couchbase.Client.GetVBucketSeqNos), calls(couchbase.Client.GetFailOverLogs), calls("wrapper.(*ConcurrentSwissMap).Range")
+
+// ---------- lifecycle (C11, C12, C13, C15) ----------
+
+//@ iface couchbase.Client.OpenStream
+//@ params recv vbID collectionIDs offset observer
+//@ modifies nothing
+
+//@ iface couchbase.Client.CloseStream
+//@ params recv vbID
+//@ modifies nothing
+
+//@ func (*stream).openStream
+//@ props C12 C15 C02
+//@ requires s != nil && s.offsets != nil && s.observers != nil && s.client != nil
+//@ ensures.missing[C15] !old(has(s.offsets, vbID)) ==> result != nil && calls(couchbase.Client.OpenStream) == 0
+//@ ensures.request[C02,C12] old(has(s.offsets, vbID)) ==> calls(couchbase.Client.OpenStream) == 1 && arg(couchbase.Client.OpenStream, 0, recv) == old(s.client) && arg(couchbase.Client.OpenStream, 0, vbID) == vbID && arg(couchbase.Client.OpenStream, 0, offset) == old(s.offsets[vbID]) && arg(couchbase.Client.OpenStream, 0, observer) == old(ite(has(s.observers, vbID), s.observers[vbID], nil)) && result == ret(couchbase.Client.OpenStream, 0)
+//@ modifies calls(couchbase.Client.OpenStream)
+
+//@ func (*stream).reopenStream
+//@ props C11 C12 C15
+//@ requires s != nil && s.offsets != nil && s.client != nil
+//@ let K = "stream.(*stream).openStream"
+//@ let n = dcalls("stream.(*stream).openStream")
+//@ loop 1 unroll 6
+//@ ensures.closed_gives_up[C11] old(s.observers) == nil ==> n == 0
+//@ ensures.bounded[C12,C15] n <= 5
+//@ ensures.until_success[C12] n >= 1 ==> (forall i int :: 0 <= i && i < n - 1 ==> dret("stream.(*stream).openStream", i, 0) != nil) && (dret("stream.(*stream).openStream", n - 1, 0) == nil || s.observers == nil)
+//@ ensures.same_vb[C12] forall i int :: 0 <= i && i < n ==> darg("stream.(*stream).openStream", i, vbID) == vbID && darg("stream.(*stream).openStream", i, s) == s
+//@ onpanic.exhausted[C11,C15] n == 5 && (forall i int :: 0 <= i && i < 5 ==> dret("stream.(*stream).openStream", i, 0) != nil) && s.observers != nil
+//@ modifies calls("stream.(*stream).openStream"), calls(couchbase.Client.OpenStream)
+
+//@ func (*stream).listenEnd
+//@ props C12 C11
+//@ requires s != nil && s.finishStreamWithEndEventCh != nil && atomicval(s.activeStreams) > -2147483648 && atomicval(s.activeStreams) <= 2147483647
+//@ requires s.streamEndNotSupportedData != nil ==> s.streamEndNotSupportedData.queue != s.finishStreamWithEndEventCh
+//@ let err = endContext.Err
+//@ let transient = !old(s.closeWithCancel) && err != nil && (iserr(err, gocbcore.ErrSocketClosed) || iserr(err, gocbcore.ErrDCPBackfillFailed) || iserr(err, gocbcore.ErrDCPStreamStateChanged) || iserr(err, gocbcore.ErrDCPStreamTooSlow) || iserr(err, gocbcore.ErrDCPStreamDisconnected))
+//@ let before = old(atomicval(s.activeStreams))
+//@ ensures.reopen[C12] transient ==> calls("go:stream.(*stream).reopenStream") == 1 && arg("go:stream.(*stream).reopenStream", 0, s) == s && arg("go:stream.(*stream).reopenStream", 0, vbID) == endContext.Event.VbID && atomicval(s.activeStreams) == before && sends(s.finishStreamWithEndEventCh) == 0
+//@ ensures.final[C12] !transient ==> calls("go:stream.(*stream).reopenStream") == 0 && atomicval(s.activeStreams) == before - 1
+//@ ensures.token[C12] !transient ==> sends(s.finishStreamWithEndEventCh) == ite(before - 1 == 0 && !old(s.streamFinishedWithCloseCh), 1, 0)
+//@ modifies atomic(s.activeStreams), chan(s.finishStreamWithEndEventCh), chan(old(s.streamEndNotSupportedData).queue), calls("go:stream.(*stream).reopenStream")
+
+//@ func (*stream).wait
+//@ props C11 C12
+//@ requires s != nil && s.finishStreamWithCloseCh != nil && s.finishStreamWithEndEventCh != nil && s.stopCh != nil && !chclosed(s.finishStreamWithCloseCh) && !chclosed(s.finishStreamWithEndEventCh) && s.finishStreamWithCloseCh != s.finishStreamWithEndEventCh && s.stopCh != s.finishStreamWithCloseCh && s.stopCh != s.finishStreamWithEndEventCh
+//@ ensures.rebalance_never_stops[C11] s.balancing ==> chclosed(s.stopCh) == old(chclosed(s.stopCh))
+//@ ensures.stops[C12] !s.balancing ==> chclosed(s.stopCh)
+//@ ensures.consumed[C11,C12] (chrecvd(s.finishStreamWithCloseCh) - old(chrecvd(s.finishStreamWithCloseCh))) + (chrecvd(s.finishStreamWithEndEventCh) - old(chrecvd(s.finishStreamWithEndEventCh))) == 1
+//@ modifies chan(s.finishStreamWithCloseCh), chan(s.finishStreamWithEndEventCh), chan(s.stopCh), s.streamFinishedWithCloseCh, s.streamFinishedWithEndEventCh, calls(select.case), calls(builtin.close)
+
+//@ func (*stream).openAllStreams$1
+//@ props C15
+//@ requires s != nil && s.offsets != nil && s.observers != nil && s.client != nil && openWg != nil
+//@ ensures.ok[C15] dcalls("stream.(*stream).openStream") == 1 && dret("stream.(*stream).openStream", 0, 0) == nil && darg("stream.(*stream).openStream", 0, vbID) == innerVbId
+//@ onpanic.failed[C15] dcalls("stream.(*stream).openStream") == 1 && dret("stream.(*stream).openStream", 0, 0) != nil
+//@ modifies calls("stream.(*stream).openStream"), calls(couchbase.Client.OpenStream)
+
+//@ func (*stream).openAllStreams
+//@ props C15 C12
+//@ requires s != nil
+//@ loop 1
+//@   invariant.spawned 0 <= rangeindex + 1 && rangeindex + 1 <= len(vbIDs) && dcalls("go:stream.(*stream).openAllStreams$1") == rangeindex + 1
+//@   invariant.each forall j int :: 0 <= j && j <= rangeindex ==> darg("go:stream.(*stream).openAllStreams$1", j, innerVbId) == vbIDs[j]
+//@   modifies calls("go:stream.(*stream).openAllStreams$1")
+//@ ensures.all[C15,C12] dcalls("go:stream.(*stream).openAllStreams$1") == len(vbIDs) && forall j int :: 0 <= j && j < len(vbIDs) ==> darg("go:stream.(*stream).openAllStreams$1", j, innerVbId) == vbIDs[j]
+//@ modifies calls("go:stream.(*stream).openAllStreams$1")
+
+//@ iface couchbase.Observer.Close
+//@ params recv
+//@ modifies nothing
+
+//@ iface couchbase.Observer.CloseEnd
+//@ params recv
+//@ modifies nothing
+
+//@ func (*stream).closeAllStreams
+//@ props C13
+//@ trusted
+//@ requires s != nil && s.offsets != nil && s.client != nil
+//@ modifies calls(couchbase.Client.CloseStream), calls("go:stream.(*stream).closeAllStreams$1$1")
+
+//@ func (*stream).Close$1
+//@ props C13
+//@ requires observer != nil
+//@ ensures.switch[C13] result == true && calls(couchbase.Observer.Close) == 1 && arg(couchbase.Observer.Close, 0, recv) == observer
+//@ modifies calls(couchbase.Observer.Close)
+
+//@ func (*stream).Close$2
+//@ props C13
+//@ requires observer != nil
+//@ ensures.switch[C13] result == true && calls(couchbase.Observer.CloseEnd) == 1 && arg(couchbase.Observer.CloseEnd, 0, recv) == observer
+//@ modifies calls(couchbase.Observer.CloseEnd)
+
+//@ func (*stream).Close
+//@ props C11 C12 C13
+//@ nopanic
+//@ requires s != nil && s.eventHandler != nil && s.config != nil && s.finishStreamWithCloseCh != nil && !chclosed(s.finishStreamWithCloseCh) && logger.Log != nil
+//@ requires s.open ==> s.observers != nil && s.offsets != nil && s.client != nil && (s.config.RollbackMitigation.Disabled || s.rollbackMitigation != nil) && (forall vb uint16 :: has(s.observers, vb) ==> s.observers[vb] != nil)
+//@ let wasopen = old(s.open)
+//@ loop $1
+//@   modifies calls(couchbase.Observer.Close)
+//@ loop $2
+//@   modifies calls(couchbase.Observer.CloseEnd)
+//@ ensures.mode s.closeWithCancel == closeWithCancel
+//@ ensures.already_closed[C13] !wasopen ==> calls(models.EventHandler.BeforeStreamStop) == 0 && calls(models.EventHandler.AfterStreamStop) == 0 && dcalls("stream.(*stream).closeAllStreams") == 0 && s.observers == old(s.observers) && s.offsets == old(s.offsets) && !s.open && sends(s.finishStreamWithCloseCh) == 0
+//@ ensures.cancel_reopen[C13] !wasopen ==> calls("time.(*Timer).Stop") == ite(old(s.rebalanceTimer) != nil, 1, 0)
+//@ ensures.closed[C13] wasopen ==> !s.open && s.observers == nil && fresh(s.offsets) && fresh(s.dirtyOffsets) && (forall vb uint16 :: !has(s.offsets, vb) && !has(s.dirtyOffsets, vb))
+//@ ensures.bracket[C11] wasopen ==> calls(models.EventHandler.BeforeStreamStop) == 1 && calls(models.EventHandler.AfterStreamStop) == 1 && ts(models.EventHandler.BeforeStreamStop, 0) < ts("stream.(*stream).closeAllStreams", 0) && ts("stream.(*stream).closeAllStreams", 0) < ts(models.EventHandler.AfterStreamStop, 0)
+//@ ensures.switches[C13] wasopen ==> dcalls("wrapper.(*ConcurrentSwissMap).Range") == 2 && isclosure(darg("wrapper.(*ConcurrentSwissMap).Range", 0, f), "stream.(*stream).Close$1") && isclosure(darg("wrapper.(*ConcurrentSwissMap).Range", 1, f), "stream.(*stream).Close$2") && darg("wrapper.(*ConcurrentSwissMap).Range", 0, m) == old(s.observers) && darg("wrapper.(*ConcurrentSwissMap).Range", 1, m) == old(s.observers) && ts("wrapper.(*ConcurrentSwissMap).Range", 0) < ts("stream.(*stream).closeAllStreams", 0) && ts("stream.(*stream).closeAllStreams", 0) < ts("wrapper.(*ConcurrentSwissMap).Range", 1)
+//@ ensures.mitigation[C13] wasopen && !s.config.RollbackMitigation.Disabled ==> calls(couchbase.RollbackMitigation.Stop) == 1
+//@ ensures.token[C11,C12] wasopen ==> sends(s.finishStreamWithCloseCh) == ite(s.streamFinishedWithEndEventCh, 0, 1)
+//@ modifies s.closeWithCancel, s.observers, s.offsets, s.dirtyOffsets, s.open, chan(s.finishStreamWithCloseCh), calls(models.EventHandler.BeforeStreamStop), calls(models.EventHandler.AfterStreamStop), calls("stream.(*stream).closeAllStreams"), calls(couchbase.Client.CloseStream), calls("go:stream.(*stream).closeAllStreams$1$1"), calls(couchbase.Observer.Close), calls(couchbase.Observer.CloseEnd), calls(couchbase.RollbackMitigation.Stop), calls(stream.Checkpoint.StopSchedule), calls("time.(*Timer).Stop"), calls("wrapper.(*ConcurrentSwissMap).Range")
+
+//@ func (*stream).Rebalance
+//@ props C11 C13
+//@ requires s != nil && s.eventHandler != nil && s.config != nil && s.finishStreamWithCloseCh != nil && !chclosed(s.finishStreamWithCloseCh) && logger.Log != nil
+//@ requires s.open ==> s.observers != nil && s.offsets != nil && s.client != nil && (s.config.RollbackMitigation.Disabled || s.rollbackMitigation != nil) && (forall vb uint16 :: has(s.observers, vb) ==> s.observers[vb] != nil)
+//@ let debounce = old(s.balancing && s.rebalanceTimer != nil)
+//@ let delay = old(s.config.Dcp.Group.Membership.RebalanceDelay)
+//@ ensures.debounce_quiet[C11] debounce ==> dcalls("stream.(*stream).Close") == 0 && calls(models.EventHandler.BeforeRebalanceStart) == 0 && calls(models.EventHandler.AfterRebalanceStart) == 0 && calls(models.EventHandler.BeforeStreamStop) == 0 && s.balancing
+//@ ensures.debounce_rearm[C11] debounce ==> calls("time.(*Timer).Stop") == 1 && arg("time.(*Timer).Stop", 0, 0) == old(s.rebalanceTimer) && (ret("time.(*Timer).Stop", 0) ==> calls("time.(*Timer).Reset") == 1 && arg("time.(*Timer).Reset", 0, d) == delay && calls(time.AfterFunc) == 0 && s.rebalanceTimer == old(s.rebalanceTimer)) && (!ret("time.(*Timer).Stop", 0) ==> calls("time.(*Timer).Reset") == 0 && calls(time.AfterFunc) == 1 && arg(time.AfterFunc, 0, d) == delay && isbound(arg(time.AfterFunc, 0, f), "stream.(*stream).Rebalance") && boundrecv(arg(time.AfterFunc, 0, f), "stream.(*stream).Rebalance") == s && s.rebalanceTimer == ret(time.AfterFunc, 0))
+//@ ensures.start_once[C11] !debounce ==> calls(models.EventHandler.BeforeRebalanceStart) == 1 && calls(models.EventHandler.AfterRebalanceStart) == 1 && dcalls("stream.(*stream).Close") == ite(old(s.balancing), 0, 1) && s.balancing && held(s.rebalanceLock)
+//@ ensures.start_close[C11] !debounce && !old(s.balancing) ==> darg("stream.(*stream).Close", 0, closeWithCancel) == false && ts(models.EventHandler.BeforeRebalanceStart, 0) < ts("stream.(*stream).Close", 0) && ts("stream.(*stream).Close", 0) < ts(models.EventHandler.AfterRebalanceStart, 0)
+//@ ensures.start_timer[C11] !debounce ==> calls(time.AfterFunc) == 1 && arg(time.AfterFunc, 0, d) == ite(s.config.Dcp.Group.Membership.Type == "dynamic", 0, delay) && isbound(arg(time.AfterFunc, 0, f), "stream.(*stream).rebalance") && boundrecv(arg(time.AfterFunc, 0, f), "stream.(*stream).rebalance") == s && s.rebalanceTimer == ret(time.AfterFunc, 0) && ts(models.EventHandler.AfterRebalanceStart, 0) < ts(time.AfterFunc, 0)
+//@ modifies s.balancing, s.rebalanceTimer, mutex(s.rebalanceLock), s.closeWithCancel, s.observers, s.offsets, s.dirtyOffsets, s.open, chan(s.finishStreamWithCloseCh), calls(models.EventHandler.BeforeRebalanceStart), calls(models.EventHandler.AfterRebalanceStart), calls(models.EventHandler.BeforeStreamStop), calls(models.EventHandler.AfterStreamStop), calls("stream.(*stream).Close"), calls("stream.(*stream).closeAllStreams"), calls(couchbase.Client.CloseStream), calls("go:stream.(*stream).closeAllStreams$1$1"), calls(couchbase.Observer.Close), calls(couchbase.Observer.CloseEnd), calls(couchbase.RollbackMitigation.Stop), calls(stream.Checkpoint.StopSchedule), calls("time.(*Timer).Stop"), calls("time.(*Timer).Reset"), calls(time.AfterFunc), calls("wrapper.(*ConcurrentSwissMap).Range")
+
+//@ iface stream.VBucketDiscovery.Get
+//@ params recv
+//@ ensures len(result) >= 1 && len(result) <= 65536
+//@ modifies nothing
+
+//@ iface stream.Checkpoint.Load
+//@ params recv
+//@ ensures result0 != nil && result1 != nil && fresh(result0) && fresh(result1) && forall vb uint16 :: has(result0, vb) ==> result0[vb] != nil
+//@ modifies nothing
+
+//@ func (*stream).Open$1
+//@ props C03
+//@ requires s != nil && s.observers != nil && offset != nil
+//@ ensures.observer[C03,C12] result == true && has(s.observers, vbID) && s.observers[vbID] != nil && typeis(s.observers[vbID], "*couchbase.observer") && fresh(as(s.observers[vbID], "*couchbase.observer")) && as(s.observers[vbID], "*couchbase.observer").vbID == vbID && as(s.observers[vbID], "*couchbase.observer").latestSeqNo == offset.LatestSeqNo && as(s.observers[vbID], "*couchbase.observer").config == s.config && as(s.observers[vbID], "*couchbase.observer").collectionIDs == s.collectionIDs
+//@ ensures.wiring[C03,C12] isbound(as(s.observers[vbID], "*couchbase.observer").listener, "stream.(*stream).listen") && boundrecv(as(s.observers[vbID], "*couchbase.observer").listener, "stream.(*stream).listen") == s && isbound(as(s.observers[vbID], "*couchbase.observer").endListener, "stream.(*stream).listenEnd") && boundrecv(as(s.observers[vbID], "*couchbase.observer").endListener, "stream.(*stream).listenEnd") == s
+//@ ensures.others forall k uint16 :: k != vbID ==> has(s.observers, k) == old(has(s.observers, k)) && s.observers[k] == old(s.observers[k])
+//@ modifies content(s.observers)
+
+//@ func (*stream).Open
+//@ props C02 C04 C09 C11 C12
+//@ requires s != nil && s.eventHandler != nil && s.vBucketDiscovery != nil && s.config != nil && s.bucketInfo != nil && s.client != nil && s.metadata != nil && s.finishStreamWithCloseCh != nil && s.finishStreamWithEndEventCh != nil && s.finishStreamWithCloseCh != s.finishStreamWithEndEventCh && logger.Log != nil
+//@ let ids = ret(stream.VBucketDiscovery.Get, 0, 0)
+//@ loop $1
+//@   invariant.observers forall vb uint16 :: visited[vb] ==> has(s.observers, vb) && s.observers[vb] != nil
+//@   modifies content(s.observers), newobjs(couchbase.observer), newobjs(couchbase.ObserverMetric)
+//@ ensures.fresh_assignment[C09,C11] calls(stream.VBucketDiscovery.Get) == 1 && arg(stream.VBucketDiscovery.Get, 0, recv) == old(s.vBucketDiscovery)
+//@ ensures.range[C04,C09] s.vbIDRange != nil && fresh(s.vbIDRange) && s.vbIDRange.Start == ids[0] && s.vbIDRange.End == ids[len(ids) - 1]
+//@ ensures.count[C12] atomicval(s.activeStreams) == len(ids)
+//@ ensures.resume[C02,C11] calls(stream.Checkpoint.Load) == 1 && s.offsets == ret(stream.Checkpoint.Load, 0, 0) && s.dirtyOffsets == ret(stream.Checkpoint.Load, 0, 1) && s.anyDirtyOffset == ret(stream.Checkpoint.Load, 0, 2)
+//@ ensures.observers[C03,C12] s.observers != nil && fresh(s.observers) && forall vb uint16 :: has(s.offsets, vb) ==> has(s.observers, vb) && s.observers[vb] != nil
+//@ ensures.streams[C12,C15] dcalls("stream.(*stream).openAllStreams") == 1 && darg("stream.(*stream).openAllStreams", 0, vbIDs) == ids
+//@ ensures.bracket[C11] calls(models.EventHandler.BeforeStreamStart) == 1 && calls(models.EventHandler.AfterStreamStart) == 1 && ts(models.EventHandler.BeforeStreamStart, 0) < ts(stream.VBucketDiscovery.Get, 0) && ts(stream.VBucketDiscovery.Get, 0) < ts(stream.Checkpoint.Load, 0) && ts(stream.Checkpoint.Load, 0) < ts("stream.(*stream).openAllStreams", 0) && ts("stream.(*stream).openAllStreams", 0) < ts(models.EventHandler.AfterStreamStart, 0)
+//@ ensures.session[C11,C12] s.open && !s.streamFinishedWithCloseCh && !s.streamFinishedWithEndEventCh && calls("go:stream.(*stream).wait") == 1 && arg("go:stream.(*stream).wait", 0, s) == s && dcalls(select.case) == 2
+//@ modifies s.streamFinishedWithCloseCh, s.streamFinishedWithEndEventCh, s.vbIDRange, s.rollbackMitigation, s.config.RollbackMitigation.Disabled, atomic(s.activeStreams), s.checkpoint, s.offsets, s.dirtyOffsets, s.anyDirtyOffset, s.observers, s.open, chan(s.finishStreamWithCloseCh), chan(s.finishStreamWithEndEventCh), calls(select.case), calls(models.EventHandler.BeforeStreamStart), calls(models.EventHandler.AfterStreamStart), calls(stream.VBucketDiscovery.Get), calls(stream.Checkpoint.Load), calls("stream.(*stream).openAllStreams"), calls("go:stream.(*stream).openAllStreams$1"), calls("go:stream.(*stream).wait"), calls(stream.Checkpoint.StartSchedule), calls(couchbase.RollbackMitigation.Start), calls("wrapper.(*ConcurrentSwissMap).Range")
+
+//@ func (*stream).rebalance
+//@ props C11 C16
+//@ requires s != nil && s.eventHandler != nil && s.vBucketDiscovery != nil && s.config != nil && s.bucketInfo != nil && s.client != nil && s.metadata != nil && s.metric != nil && s.finishStreamWithCloseCh != nil && s.finishStreamWithEndEventCh != nil && s.finishStreamWithCloseCh != s.finishStreamWithEndEventCh && logger.Log != nil
+//@ ensures.reopen_once[C11] dcalls("stream.(*stream).Open") == 1 && calls(models.EventHandler.BeforeRebalanceEnd) == 1 && calls(models.EventHandler.AfterRebalanceEnd) == 1 && ts(models.EventHandler.BeforeRebalanceEnd, 0) < ts("stream.(*stream).Open", 0) && ts("stream.(*stream).Open", 0) < ts(models.EventHandler.AfterRebalanceEnd, 0)
+//@ ensures.done[C11] !s.balancing && !held(s.rebalanceLock)
+//@ ensures.counted[C16] s.metric.Rebalance == old(s.metric.Rebalance) + 1 || old(s.metric.Rebalance) == 9223372036854775807
+//@ modifies s.balancing, mutex(s.rebalanceLock), s.metric.Rebalance, s.streamFinishedWithCloseCh, s.streamFinishedWithEndEventCh, s.vbIDRange, s.rollbackMitigation, s.config.RollbackMitigation.Disabled, atomic(s.activeStreams), s.checkpoint, s.offsets, s.dirtyOffsets, s.anyDirtyOffset, s.observers, s.open, chan(s.finishStreamWithCloseCh), chan(s.finishStreamWithEndEventCh), calls(select.case), calls(models.EventHandler.BeforeStreamStart), calls(models.EventHandler.AfterStreamStart), calls(models.EventHandler.BeforeRebalanceEnd), calls(models.EventHandler.AfterRebalanceEnd), calls(stream.VBucketDiscovery.Get), calls(stream.Checkpoint.Load), calls("stream.(*stream).Open"), calls("stream.(*stream).openAllStreams"), calls("go:stream.(*stream).openAllStreams$1"), calls("go:stream.(*stream).wait"), calls(stream.Checkpoint.StartSchedule), calls(couchbase.RollbackMitigation.Start), calls("wrapper.(*ConcurrentSwissMap).Range")
